@@ -13,6 +13,8 @@
 From Coq Require Import List NArith Permutation Lia ZifyN ZifyNat ZifyBool.
 From GoPdf.Base Require Import Bytes.
 From GoPdf.C13 Require Import CMapRanges CMapRangesProofs1 CMapRangesProofs2 CMapRangesProofs3 CMapRangesProofs4.
+From GoPdf.C13 Require Import CMapText CMapTextProofs1 CMapTextProofs2 CMapTextProofs3 CMapTextProofs4.
+From Coq Require Import ZArith.
 Import ListNotations.
 Open Scope N_scope.
 
@@ -317,3 +319,153 @@ Example ex_child_notdef_lookup :
   c_singles (set_mapping ex_csr f [(65, 1); (80, 9); (81, 0)]) = [([80], 9); ([81], 0)] /\
   map (lookup_cid (set_mapping ex_csr f [(65, 1); (80, 9); (81, 0)])) [[65]; [80]; [81]; [48]; [120]] = [1; 9; 0; 7; 0].
 Proof. vm_compute. split; reflexivity. Qed.
+
+(* ======================================================================== *)
+(* the text of a CMap: write_tokens / read_tokens (CMapText.v)                  *)
+(* Vocabulary (CMapTextProofs*.v):
+     valid_text t        every rune of t is a Unicode scalar value
+     wf_ctext t          at most 100 code space ranges, each with equal, non-zero lengths; codes non-empty, CIDs
+                         below 2^32; ranges with equal non-zero lengths and first <= last (bytes.Compare)
+     wf_ttext t          the same for a ToUnicode file; all text values valid
+     blocks_depth_ok rr  in every bfrange block (chunks of chunkSize = 100) the k-th entry with a list of m <> 1
+                         values satisfies 3k+3+m <= 500 (the operand stack of the PostScript interpreter)
+     normalize_c/_t      what reading back does: every list sorted by code (the interpreter's endcmap),
+                         WMode 1 or else 0, CIDSystemInfo through readCMap's clamping
+     csr_ok csr          at most 100 well-formed code space ranges
+     nd_sorted_wf f      the notdef lists of f are well-formed and already sorted by code *)
+
+(* UTF-16BE as hexString writes it and toString reads it *)
+Theorem utf16be_rt :
+  forall rs, valid_text rs -> utf16be_dec (utf16be_enc rs) = Some rs.
+Proof. exact utf16be_rt_lemma. Qed.
+Print Assumptions utf16be_rt.
+
+(* for arbitrary runes: surrogates and values above 10FFFF come back as U+FFFD *)
+Theorem utf16be_rt_any :
+  forall rs, utf16be_dec (utf16be_enc rs) = Some (map fix_rune rs).
+Proof. exact utf16be_rt_general. Qed.
+Print Assumptions utf16be_rt_any.
+
+(* chunks: the blocks are the list, cut into pieces of 1..100 entries *)
+Theorem chunks_exact :
+  forall (A : Type) (x : list A), concat (chunks x) = x /\ Forall (fun c => (1 <= length c <= 100)%nat) (chunks x).
+Proof. intros A x. split; [apply chunks_concat|apply chunks_sizes]. Qed.
+Print Assumptions chunks_exact.
+
+(* File.WriteTo followed by the interpreter + readCMap gives the file back, lists sorted *)
+Theorem cmap_text_rt :
+  forall t, wf_ctext t -> read_tokens_cid (write_tokens_cid t) = Some (normalize_c t).
+Proof. exact cmap_text_rt_lemma. Qed.
+Print Assumptions cmap_text_rt.
+
+(* the same for ToUnicode files whose bfrange blocks fit the operand stack *)
+Theorem tounicode_text_rt :
+  forall t, wf_ttext t -> blocks_depth_ok (tt_ranges t) -> read_tokens_tu (write_tokens_tu t) = Some (normalize_t t).
+Proof. exact tounicode_text_rt_lemma. Qed.
+Print Assumptions tounicode_text_rt.
+
+Theorem blocks_depth_ok_lists_200 :
+  forall rr : list trange, Forall (fun r : trange => (length (snd r) <= 200)%nat) rr -> blocks_depth_ok rr.
+Proof. exact blocks_depth_ok_short. Qed.
+Print Assumptions blocks_depth_ok_lists_200.
+
+(* without the operand-stack condition the statement is false
+   (finding tounicode-extract-operand-stack-overflow): entry 99 of a block with 201 values *)
+Definition tounicode_text_rt_full : Prop :=
+  forall t, wf_ttext t -> read_tokens_tu (write_tokens_tu t) = Some (normalize_t t).
+
+Theorem tounicode_text_rt_refuted :
+  exists t, wf_ttext t /\ read_tokens_tu (write_tokens_tu t) <> Some (normalize_t t).
+Proof. exact tounicode_text_refuted. Qed.
+Print Assumptions tounicode_text_rt_refuted.
+
+(* SetMapping, then write, then read: same name, parent name, WMode, code space, the same LookupCID for
+   every code, the same enumeration *)
+Theorem embed_extract_lookup :
+  forall name wmode ros pn csr f data,
+    csr_ok csr -> prefix_free csr -> cid_data_ok csr data -> nd_sorted_wf f ->
+    exists t', read_tokens_cid (write_tokens_cid (ctext_of name wmode ros pn (set_mapping csr f data))) = Some t' /\
+      ct_name t' = name /\ ct_parent t' = pn /\ ct_wmode t' = (if wmode =? 1 then 1 else 0) /\
+      (forall s, in_csr (ct_csr t') s = in_csr csr s) /\
+      (forall c, lookup_cid (cfile_of t' (c_parent f)) c = lookup_cid (set_mapping csr f data) c) /\
+      Permutation (raw_all_cid (cfile_of t' (c_parent f))) (raw_all_cid (set_mapping csr f data)).
+Proof. exact embed_extract_cid_codes. Qed.
+Print Assumptions embed_extract_lookup.
+
+(* NewToUnicodeFile, then write, then read *)
+Theorem embed_extract_lookup_tounicode :
+  forall csr data name pn p,
+    csr_ok csr -> prefix_free csr -> tu_data_ok csr data -> tu_data_valid data ->
+    blocks_depth_ok (t_ranges (new_tounicode csr data)) ->
+    exists t', read_tokens_tu (write_tokens_tu (ttext_of name pn (new_tounicode csr data))) = Some t' /\
+      tt_parent t' = pn /\
+      (forall s, in_csr (tt_csr t') s = in_csr csr s) /\
+      (forall c, lookup_tu (tfile_of t' p) c = lookup_tu (with_parent (new_tounicode csr data) p) c) /\
+      Permutation (raw_all_tu (tfile_of t' p)) (raw_all_tu (with_parent (new_tounicode csr data) p)).
+Proof. exact embed_extract_tu_codes. Qed.
+Print Assumptions embed_extract_lookup_tounicode.
+
+(* the byte level: the only assumption is that the PostScript scanner reads back what was printed (H-ps) *)
+Theorem cmap_bytes_rt :
+  forall (print : list token -> bytes) (tokenize : bytes -> option (list token)),
+    (forall t, wf_ctext t -> tokenize (print (write_tokens_cid t)) = Some (write_tokens_cid t)) ->
+    forall t, wf_ctext t -> read_bytes_cid tokenize (write_bytes_cid print t) = Some (normalize_c t).
+Proof. exact cmap_bytes_rt_lemma. Qed.
+Print Assumptions cmap_bytes_rt.
+
+Theorem tounicode_bytes_rt :
+  forall (print : list token -> bytes) (tokenize : bytes -> option (list token)),
+    (forall t, wf_ttext t -> tokenize (print (write_tokens_tu t)) = Some (write_tokens_tu t)) ->
+    forall t, wf_ttext t -> blocks_depth_ok (tt_ranges t) ->
+              read_bytes_tu tokenize (write_bytes_tu print t) = Some (normalize_t t).
+Proof. exact tounicode_bytes_rt_lemma. Qed.
+Print Assumptions tounicode_bytes_rt.
+
+(* ---- examples for the text level ---------------------------------------------- *)
+
+Example ex_utf16 :
+  utf16be_enc [65; 128512; 55295] = [0; 65; 216; 61; 222; 0; 215; 255] /\
+  utf16be_dec [0; 65; 216; 61; 222; 0; 215; 255] = Some [65; 128512; 55295] /\
+  utf16be_dec [216; 61; 0; 65] = Some [65533; 65] /\ utf16be_dec [0; 65; 0] = None.
+Proof. vm_compute. repeat split; reflexivity. Qed.
+
+Definition ex_ctext : ctext :=
+  CText [86] 1 (Some ([65], [66], 3%Z)) (Some [80])
+        [([128; 0], [255; 255]); ([0], [127])]
+        [([66], 5); ([65], 4294967295)] [([128; 16], [128; 32], 7)] [([32], 1)] [([0], [31], 2)].
+
+Example ex_ctext_wf : wf_ctext ex_ctext.
+Proof.
+  unfold wf_ctext, ex_ctext, csr_wf, single_wf, crange_full_wf, two32; cbn.
+  repeat split; repeat constructor; cbn; try discriminate; try lia.
+Qed.
+
+Example ex_ctext_rt :
+  read_tokens_cid (write_tokens_cid ex_ctext)
+  = Some (CText [86] 1 (Some ([65], [66], 3%Z)) (Some [80])
+                [([0], [127]); ([128; 0], [255; 255])]
+                [([65], 4294967295); ([66], 5)] [([128; 16], [128; 32], 7)] [([32], 1)] [([0], [31], 2)]).
+Proof. vm_compute. reflexivity. Qed.
+
+Definition ex_ttext : ttext :=
+  TText [78] None [([0], [255])] [([90], [97; 128512])] [([65], [67], [[55295]; [65533]; [65534]]); ([70], [72], [[120]])].
+
+Example ex_ttext_wf : wf_ttext ex_ttext /\ blocks_depth_ok (tt_ranges ex_ttext).
+Proof.
+  split.
+  - unfold wf_ttext, ex_ttext, csr_wf, tsingle_wf, trange_full_wf, valid_text; cbn.
+    repeat split; repeat constructor; cbn; try discriminate; try lia.
+  - apply blocks_depth_ok_short. repeat constructor; cbn; lia.
+Qed.
+
+Example ex_ttext_rt : read_tokens_tu (write_tokens_tu ex_ttext) = Some ex_ttext.
+Proof. vm_compute. reflexivity. Qed.
+
+Example ex_csr_ok : csr_ok ex_csr.
+Proof. unfold csr_ok, ex_csr, csr_wf. split; [cbn; lia|]. repeat constructor; cbn; try discriminate. Qed.
+
+Example ex_nd_sorted : nd_sorted_wf (CFile [] [] [] [([32], 1)] [([0], [31], 2); ([64], [95], 3)] None).
+Proof.
+  unfold nd_sorted_wf, single_wf, crange_full_wf, two32; cbn.
+  repeat split; repeat constructor; cbn; try discriminate; try lia.
+Qed.
